@@ -609,7 +609,10 @@ class StyleElement(TTMLElement):
         region_style = parent_ctx.model_element.get_style(style_prop)
 
         if region_style is None:
-          parent_ctx.model_element.set_style(style_prop, value)
+          try:
+            parent_ctx.model_element.set_style(style_prop, value)
+          except ValueError:
+            LOGGER.error("Error reading style property: %s", style_prop.__name__)
 
       return None
 
@@ -738,7 +741,10 @@ class ContentElement(TTMLElement):
 
         for model_prop, value in style_element.styles.items():
           if not self.model_element.has_style(model_prop):
-            self.model_element.set_style(model_prop, value)
+            try:
+              self.model_element.set_style(model_prop, value)
+            except ValueError:
+              LOGGER.error("Error reading style property: %s", model_prop.__name__)
 
     def process_specified_styling(self, xml_elem):
       '''Processes specified styling
